@@ -235,6 +235,63 @@ Definition register_finish_old_steps : list step :=
 Definition auth_finish_old_steps : list step :=
   [SAuth MAny; SCheck; SEff EChange; SEff ESigned].
 
+(* ---- the login route as ISSUER of sessions (loginHandler) ----
+   What the handler reads: the method, the Authorization: Basic header if the request has one
+   (r.BasicAuth() comes first), else the username / password fields of the form.  Everything else the
+   request carries comes along and must NOT count: an auth_cookie (of the same user or of another one,
+   of any level, valid or not), a client certificate, Origin/Referer, the clock.  The session it mints
+   names the user whose password was verified, at the password level and nothing more: second-factor
+   bits are earned at the second-factor endpoints, by the user the session belongs to. *)
+Record loginq := {
+  lq_req : reqx;               (* method, Origin/Referer, client certificate, auth_cookie; k_basic is the
+                                  Authorization: Basic header *)
+  lq_form : option basicx }.   (* both form fields present and non-empty: b_user is the name after the CR/LF
+                                  stripping and reprocessUsername, b_ok / b_err the backend's verdict *)
+
+(* the credential of the login route *)
+Definition login_credential (lq : loginq) : option basicx :=
+  match k_basic (q_cred (lq_req lq)) with
+  | Some b => Some b
+  | None => lq_form lq
+  end.
+
+Inductive login_out :=
+| LRefuse (code : N)           (* no Set-Cookie for auth_cookie *)
+| LMint (sub level : N).       (* setNewAuthCookie(w, sub, level) *)
+
+(* the level of the session a request arrives with (what checkAuth would let its cookie in with) *)
+Definition open_session_level (now : Z) (q : reqx) : N :=
+  match k_cookie (q_cred q) with
+  | Some t => if token_ok now t && negb (t_exp t <? now)%Z then t_level t else 0
+  | None => 0
+  end.
+
+(* [carry = false] is the code of the tree.  [carry = true] is NOT: a handler that keeps the factors of
+   the session the request arrives with (kept to show that the statements below are sharp) *)
+Definition login_handler_gen (carry : bool) (now : Z) (limiter_ok : bool) (lq : loginq) : login_out :=
+  match q_meth (lq_req lq) with
+  | OTHER => LRefuse 405
+  | _ =>
+      match login_credential lq with
+      | None => LRefuse 401
+      | Some b =>
+          if negb limiter_ok then LRefuse 429
+          else if b_err b then LRefuse 500
+          else if negb (b_ok b) then LRefuse 401
+          else LMint (b_user b) (if carry then N.lor bPassword (open_session_level now (lq_req lq)) else bPassword)
+      end
+  end.
+Definition login_handler := login_handler_gen false.
+
+(* the session cookie made of a minted (sub, level): signed by this server, for this server *)
+Definition session_token (sub level : N) (nbf exp iat : Z) : token :=
+  {| t_signer_trusted := true; t_alg_allowed := true; t_tampered := false; t_iss_ok := true; t_aud_ok := true;
+     t_kind := 0; t_nbf := nbf; t_exp := exp; t_iat := iat; t_sub := sub; t_level := level |}.
+
+(* specification side: a session for [u] at level [l] may be minted for this login request *)
+Definition login_spec (lq : loginq) (u l : N) : Prop :=
+  l = bPassword /\ exists b, login_credential lq = Some b /\ b_ok b = true /\ u = b_user b.
+
 (* ---- structural checkers (decidable; soundness is proved in Proofs/AuthGate.v) ---- *)
 
 Record flags := { f_auth : option mask; f_extras : list extra; f_own : bool; f_pw : bool }.
